@@ -68,7 +68,7 @@ void DocumentBuilder::addSelectSymbolToFrame(const std::string& id, frame_t& fra
     typeFragments.pop();
 
     if (!type.is(CONSTANT)) {
-        type = type.create_prefix(CONSTANT);
+        type = type.create_prefix(CONSTANT, position);
     }
 
     if (!type.is_scalar() && !type.is_integer()) {
